@@ -75,8 +75,9 @@ def dump_mir(log):
         if r.returncode != 0 or os.path.getsize(binm) == 0:
             raise explore.Inconclusive('MIR dump of typstyle (bin) failed:\n' + r.stderr[-3000:])
         open(os.path.join(d, 'ok'), 'w').write(th)
-        # drop older dumps
-        for old in glob.glob(os.path.join(CACHE, 'mir', '*')):
+        # keep only the few most recent dumps
+        olds = sorted(glob.glob(os.path.join(CACHE, 'mir', '*')), key=os.path.getmtime, reverse=True)
+        for old in olds[4:]:
             if old != d:
                 subprocess.run(['rm', '-rf', old])
         log('mir dump: fresh %s (tree %s) in %.1fs' % (key, th, time.time() - t))
